@@ -95,9 +95,11 @@ func main() {
 	n := fs.Int("n", 1000, "number of cases")
 	tier := fs.String("tier", "quick", "quick|thorough")
 	replay := fs.String("replay", "", "re-run the cases of this ops file")
+	caseBase := fs.Int("casebase", 0, "number the cases from this value on (shards of one suite run)")
 	fs.Parse(os.Args[2:])
 
 	o := &Out{w: bufio.NewWriterSize(os.Stdout, 1<<20), stats: map[string]int64{}}
+	o.caseN = *caseBase
 	if *replay != "" {
 		rs, ok := replaySuites[suite]
 		if !ok {
